@@ -215,6 +215,11 @@ func RunCase(c *Case) (string, []string, bool) {
 	if got.tr.HasKind(wz.KInternal) {
 		return fmt.Sprintf("internal failure in instance 0: %v %v", got.tr.Inst, got.tr.Steps), nil, false
 	}
+	if f := append(append([]string{}, sA.Host.Foreign...), sB.Host.Foreign...); len(f) > 0 && sA != sB {
+		// the guests of one runtime import that runtime's own host module; a call that arrives at the
+		// other runtime's host functions means the two runtimes share what the host modules compiled to
+		return fmt.Sprintf("host functions of one runtime were invoked by guests of the other runtime (shared compilation cache): %v", f), nil, false
+	}
 	if got.tr.HasKind(wz.KStack) {
 		return "", []string{"discarded-stack-overflow"}, false
 	}
